@@ -333,8 +333,11 @@ ApplyScalar(s, what) ==
               [] what = "current_size" -> RInt(s.cur)
               [] what = "max_size"     -> RInt(s.max)
               [] what = "capacity"     -> RInt(Cap(s))
-              [] what = "debug"        -> Ret("unit", 0, 0, 0, NoM, NoM, 0, KeySeq(s.ord)),
-         IF what = "debug" THEN 0 ELSE 2)
+              [] what = "debug"        -> Ret("unit", 0, 0, 0, NoM, NoM, 0, KeySeq(s.ord))
+              \* hasher(): a reference to the very hash builder the cache was created
+              \* with (a clone: to the clone of its source's), i.e. one that hashes like it
+              [] what = "hasher"       -> RTag("own"),
+         IF what \in {"debug", "hasher"} THEN 0 ELSE 2)
 
 -----------------------------------------------------------------------------
 (* iterators.  A run is: open an iterator of `kind`, perform the word w    *)
@@ -416,7 +419,7 @@ Apply0(s, a) ==
       [] a.op = "try_reserve"   -> ApplyTryReserve(s, a.n, a.fl)
       [] a.op = "shrink_to"     -> ApplyShrinkTo(s, a.n)
       [] a.op = "shrink_to_fit" -> ApplyShrinkTo(s, 0)
-      [] a.op \in {"len", "is_empty", "current_size", "max_size", "capacity", "debug"}
+      [] a.op \in {"len", "is_empty", "current_size", "max_size", "capacity", "debug", "hasher"}
                                 -> ApplyScalar(s, a.op)
       [] a.op \in IterKinds     -> ApplyIter(s, a.op, a.w, a.fl)
 
@@ -433,12 +436,12 @@ Apply(s, a) ==
 (* classification of operations used by the properties *)
 PromotingOps == {"insert", "try_insert", "get", "get_entry", "get_lru", "touch", "mutate"}
 ReadOps      == {"peek", "peek_entry", "peek_lru", "peek_mru", "contains", "len",
-                 "is_empty", "current_size", "max_size", "capacity", "debug",
+                 "is_empty", "current_size", "max_size", "capacity", "debug", "hasher",
                  "iter", "keys", "values", "clone", "clone_from"}
 CapacityOps  == {"reserve", "try_reserve", "shrink_to", "shrink_to_fit"}
 EvictingOps  == {"insert", "mutate", "set_max_size"}
 RebuildOps   == CapacityOps \cup {"clone", "clone_from"}
-NoHashOps    == {"peek_lru", "peek_mru", "clear", "debug"} \cup IterKinds
+NoHashOps    == {"peek_lru", "peek_mru", "clear", "debug", "hasher"} \cup IterKinds
 
 -----------------------------------------------------------------------------
 (***************************************************************************)
@@ -456,7 +459,7 @@ EntOf(s, k)    == IF Pos(s.ord, k) = 0 THEN Ent(k, -1, -1, -1) ELSE s.ord[Pos(s.
 Rel(o, K)      == SelectSeq(KeySeq(o), LAMBDA k : k \in K)
 RevSeq(q)      == [i \in 1..Len(q) |-> q[Len(q) + 1 - i]]
 Succeeded(a, x) == x.ret.tag \in {"OkNone", "OkSome", "Ok", "unit", "Some", "int",
-                                   "true", "false", "dropped", "forgot"}
+                                   "true", "false", "dropped", "forgot", "own"}
 
 (* C01: the memory bound *)
 C01_Bound(s) == s.alive => ULeq(s.cur, s.max)
